@@ -110,8 +110,23 @@ def example_cases():
                 yield dict(kind="example", file=fname, name=name, game=g, prune=prune)
 
 
+def leaking_dead_edge_games():
+    """Planted: a chance row whose live part already sums to 1.0 in floating point and whose dead part is too small
+    to show in that sum (1e-17, 1e-30): the dead target is a Player 2 state (conditioning leaves its list alone)
+    that pays 1e20 - if the edge into it survives, its value leaks into the live state."""
+    for eps in (1e-17, 1e-30, 5e-324):
+        for pos in (0, 1):
+            row = [(1.0, 1)]
+            row.insert(pos, (eps, 3))
+            # 0 coin; 1 final; 2 sink; 3 dead Player 2 state paying 1e20 then sinking; 4 the leaking row
+            yield dict(rewards=[1, 0, 0, 1e20, 2], players=[PR, PR, PR, P2, PR],
+                       transition_list=[[(0.5, 4), (0.5, 1)], [(1, 1)], [(1, 2)], [("x", 2)],
+                                        [(eps, 3), (1.0, 1)] if pos == 0 else [(1.0, 1), (eps, 3)]],
+                       final_states=[1])
+
+
 def tiny_cases():
-    for g in list(games.tiny_reach_games()) + list(games.dup_edge_games()):
+    for g in list(games.tiny_reach_games()) + list(games.dup_edge_games()) + list(leaking_dead_edge_games()):
         for prune in (True, False):
             yield dict(kind="game", game=g, prune=prune)
 
